@@ -316,6 +316,38 @@ def read_encrypt_counter(tree):
     raise Unextractable("_encrypt: counter_value is not `address`")
 
 
+def _is_cmdargs_get(e, key):
+    return (isinstance(e, ast.Call) and isinstance(e.func, ast.Attribute) and e.func.attr == "get" and isinstance(e.func.value, ast.Name)
+            and e.func.value.id == "cmd_args" and len(e.args) == 1 and isinstance(e.args[0], ast.Constant) and e.args[0].value == key)
+
+
+def read_blob_marker_helper(tree):
+    """SB21Helper._load / ._encrypt: `if cmd_args.get("binary_blob"): data = bytes.fromhex(cmd_args["values"])` (a BD blob is
+    loaded byte by byte) -- True when both methods have it, False when neither mentions "binary_blob"."""
+    res = []
+    for name in ("_load", "_encrypt"):
+        fns = [n for n in ast.walk(tree) if isinstance(n, ast.FunctionDef) and n.name == name]
+        if len(fns) != 1:
+            raise Unextractable(f"SB21Helper.{name}")
+        mentions = any(isinstance(n, ast.Constant) and n.value == "binary_blob" for n in ast.walk(fns[0]))
+        good = False
+        for n in ast.walk(fns[0]):
+            if isinstance(n, ast.If) and _is_cmdargs_get(n.test, "binary_blob") and len(n.body) == 1 and isinstance(n.body[0], ast.Assign):
+                a = n.body[0]
+                v = a.value
+                if (getattr(a.targets[0], "id", None) == "data" and isinstance(v, ast.Call) and isinstance(v.func, ast.Attribute)
+                        and v.func.attr == "fromhex" and isinstance(v.func.value, ast.Name) and v.func.value.id == "bytes" and len(v.args) == 1
+                        and isinstance(v.args[0], ast.Subscript) and isinstance(v.args[0].value, ast.Name) and v.args[0].value.id == "cmd_args"
+                        and isinstance(v.args[0].slice, ast.Constant) and v.args[0].slice.value == "values"):
+                    good = True
+        if mentions and not good:
+            raise Unextractable(f"SB21Helper.{name}: unrecognised use of 'binary_blob'")
+        res.append(good)
+    if res[0] != res[1]:
+        raise Unextractable("SB21Helper._load and ._encrypt treat 'binary_blob' differently")
+    return res[0]
+
+
 def read_helper(path):
     tree = ast.parse(open(path).read())
     for n in ast.walk(tree):
@@ -326,7 +358,7 @@ def read_helper(path):
                 if not (isinstance(k, ast.Constant) and isinstance(v, ast.Attribute) and isinstance(v.value, ast.Name) and v.value.id == "self"):
                     raise Unextractable("SB21Helper.cmds entry")
                 out.append((k.value, v.attr))
-            return out, read_encrypt_counter(tree)
+            return out, read_encrypt_counter(tree), read_blob_marker_helper(tree)
     raise Unextractable("SB21Helper.cmds")
 
 
@@ -336,9 +368,63 @@ def extract():
     tok_text, reserved, pinned = read_lexer(os.path.join(base, "sly_bd_lexer.py"))
     prec, prods, expr_rows, sizes, bool_rows, unary_rows, e_prods, b_prods, u_prods, defined_by_name = read_parser(
         os.path.join(base, "sly_bd_parser.py"))
-    cmds, enc_ctr_addr = read_helper(os.path.join(base, "sb_21_helper.py"))
-    return dict(defined_by_name=defined_by_name, encrypt_counter_from_address=enc_ctr_addr, tok_text=tok_text, reserved=reserved, pinned=pinned, prec=prec, prods=prods, expr_rows=expr_rows, sizes=sizes,
+    cmds, enc_ctr_addr, blob_helper = read_helper(os.path.join(base, "sb_21_helper.py"))
+    blob_parser = read_blob_marker_parser(os.path.join(base, "sly_bd_parser.py"))
+    if blob_helper != blob_parser:
+        raise Unextractable("parser and helper disagree about the 'binary_blob' marker")
+    sec_opts_refused = read_section_options_refusal(os.path.join(base, "images.py"))
+    return dict(defined_by_name=defined_by_name, encrypt_counter_from_address=enc_ctr_addr, blob_bytes_in_order=blob_helper,
+                section_options_refused=sec_opts_refused, tok_text=tok_text, reserved=reserved, pinned=pinned, prec=prec, prods=prods, expr_rows=expr_rows, sizes=sizes,
                 bool_rows=bool_rows, unary_rows=unary_rows, e_prods=e_prods, b_prods=b_prods, u_prods=u_prods, cmds=cmds)
+
+
+def read_blob_marker_parser(path):
+    """load_data ::= BINARY_BLOB : `return {"values": token.BINARY_BLOB}` or the same with `"binary_blob": True`."""
+    tree = ast.parse(open(path).read())
+    for n in ast.walk(tree):
+        if isinstance(n, ast.FunctionDef) and n.name == "load_data":
+            prods = [a.value for d in n.decorator_list if isinstance(d, ast.Call) for a in d.args if isinstance(a, ast.Constant)]
+            if prods == ["BINARY_BLOB"]:
+                b = body_nodoc(n)
+                if not (len(b) == 1 and isinstance(b[0], ast.Return) and isinstance(b[0].value, ast.Dict)):
+                    raise Unextractable("load_data BINARY_BLOB action")
+                d = {}
+                for k, v in zip(b[0].value.keys, b[0].value.values):
+                    if not isinstance(k, ast.Constant):
+                        raise Unextractable("load_data BINARY_BLOB key")
+                    d[k.value] = v
+                if not is_tok_attr(d.get("values"), "BINARY_BLOB"):
+                    raise Unextractable("load_data BINARY_BLOB: values")
+                if set(d) == {"values"}:
+                    return False
+                if set(d) == {"values", "binary_blob"} and isinstance(d["binary_blob"], ast.Constant) and d["binary_blob"].value is True:
+                    return True
+                raise Unextractable("load_data BINARY_BLOB: dictionary keys")
+    raise Unextractable("load_data BINARY_BLOB production")
+
+
+def read_section_options_refusal(path):
+    """BootImageV21.load_from_config: first statement of the loop over sections is
+    `if section.get("options"): raise SPSDKError(...)` (True) or the loop does not look at "options" (False)."""
+    tree = ast.parse(open(path).read())
+    fns = [n for n in ast.walk(tree) if isinstance(n, ast.FunctionDef) and n.name == "load_from_config"]
+    fns = [f for f in fns if any(isinstance(n, ast.Constant) and n.value == "sections" for n in ast.walk(f))]
+    if len(fns) != 1:
+        raise Unextractable("BootImageV21.load_from_config")
+    loops = [n for n in ast.walk(fns[0]) if isinstance(n, ast.For) and isinstance(n.iter, ast.Call) and getattr(n.iter.func, "id", None) == "enumerate"
+             and n.iter.args and getattr(n.iter.args[0], "id", None) == "sections"]
+    if len(loops) != 1:
+        raise Unextractable("load_from_config: loop over sections")
+    loop = loops[0]
+    mentions = any(isinstance(n, ast.Constant) and n.value == "options" for n in ast.walk(loop))
+    st = loop.body[0]
+    good = (isinstance(st, ast.If) and not st.orelse and isinstance(st.test, ast.Call) and isinstance(st.test.func, ast.Attribute)
+            and st.test.func.attr == "get" and getattr(st.test.func.value, "id", None) == "section" and len(st.test.args) == 1
+            and isinstance(st.test.args[0], ast.Constant) and st.test.args[0].value == "options" and len(st.body) == 1
+            and isinstance(st.body[0], ast.Raise) and isinstance(st.body[0].exc, ast.Call) and getattr(st.body[0].exc.func, "id", "").startswith("SPSDK"))
+    if mentions and not good:
+        raise Unextractable("load_from_config: unrecognised use of section options")
+    return good
 
 
 def regen():
@@ -389,6 +475,10 @@ def regen():
         f"({cs(nt)}, {cs(p)}, {'true' if e else 'false'})" for nt, p, e, _ in prods) + "].\n\n")
     out.append("(* sb_21_helper.py, SB21Helper._encrypt: true = encrypt_image(..., counter_value=address), false = no counter_value *)\n")
     out.append(f"Definition encrypt_counter_from_address : bool := {'true' if t['encrypt_counter_from_address'] else 'false'}.\n\n")
+    out.append("(* parser BINARY_BLOB action + SB21Helper._load/_encrypt: true = {{..}} carries \"binary_blob\" and is loaded byte by byte *)\n")
+    out.append(f"Definition blob_bytes_in_order : bool := {'true' if t['blob_bytes_in_order'] else 'false'}.\n\n")
+    out.append("(* images.py, BootImageV21.load_from_config: true = a section with options raises SPSDKError *)\n")
+    out.append(f"Definition section_options_refused : bool := {'true' if t['section_options_refused'] else 'false'}.\n\n")
     out.append("(* sb_21_helper.py: SB21Helper.cmds, statement key -> handler method *)\n")
     out.append("Definition helper_cmds : list (string * string) :=\n  [" + ";\n   ".join(f"({cs(k)}, {cs(v)})" for k, v in cmds) + "].\n")
     text = "".join(out)
